@@ -13,7 +13,9 @@
  * The jobs partition the input domain (every input takes exactly one of the prefix branches of the code):
  *   NUM_KIND 0   no radix prefix (decimal): none of the three prefix tests of the literal syntax applies
  *   NUM_KIND 1   "0x"                       (hexadecimal)
- *   NUM_KIND 2   "<d>r"      d == NUM_K     (one digit radix, 0..9; radix 0 and 1 are accepted by the code: see below)
+ *   NUM_KIND 2   "<d>r"      d == NUM_K     (one digit radix 2..9)
+ *   NUM_KIND 5   "0r" or "1r"               (degenerate one digit radices: the code does not refuse them - only zeros can
+ *                                            follow, the value is 0; the digit test precedes the division, so no trap)
  *   NUM_KIND 3   "<d><d>r"   dd == NUM_K    (two digit radix 02..36)
  *   NUM_KIND 4   "<d><d>r"   dd outside 2..36 (rejected before any arithmetic)
  * An optional sign ('-' or '+') may precede the prefix in every job. Everything after the prefix (and the length, any
@@ -47,6 +49,8 @@ void h_scan_acc(void) {
   __CPROVER_assume(is_r1 && p[0] == '0' + NUM_K);
 #elif NUM_KIND == 3
   __CPROVER_assume(is_r2 && p[0] == '0' + (NUM_K / 10) && p[1] == '0' + (NUM_K % 10));
+#elif NUM_KIND == 5
+  __CPROVER_assume(is_r1 && (p[0] == '0' || p[0] == '1'));
 #else
   __CPROVER_assume(is_r2 && (10 * (p[0] - '0') + (p[1] - '0') < 2 || 10 * (p[0] - '0') + (p[1] - '0') > 36));
 #endif
